@@ -142,10 +142,12 @@ class Pool:
 # replay (plain interpreter, public API)
 # ---------------------------------------------------------------------------------------
 
-def replay_inline(cell, args):
+def replay_inline(cell, args, lex=False, bump=False):
     """Run the harness on concrete arguments in *this* interpreter (must be CrossHair-free)."""
     from .build import Ctx, conc
     Ctx.reset(replay=True)
+    Ctx.lex = lex
+    Ctx.bump = bump
     fn = cell.harness_fn()
     err = None
     ok = None
@@ -382,6 +384,25 @@ def run_property(pid, tier='quick', seed=0, jobs=None, only=None, verbose=False,
         anchors['run'] += 1
         rep = replay_inline(c, ex)
         if rep['ok']:
+            # the same documents spelt differently (comments, PIs, CDATA, character references, XML
+            # declaration): nothing may depend on the spelling
+            rep2 = replay_inline(c, ex, lex=True)
+            anchors['lexical_variants'] = anchors.get('lexical_variants', 0) + 1
+            if rep2['ok'] is False:
+                rep = rep2
+                rep['info']['sig'] = 'lexical-variant:' + str(rep['info'].get('sig', 'unclassified'))
+            elif rep2['ok'] is None:
+                anchors.setdefault('lexical_skipped', []).append(c.cid)
+            else:
+                # the same scenario on other objects with much later message IDs, then once more as it
+                # was: what happened to other objects earlier in the process must not matter
+                replay_inline(c, ex, bump=True)     # history only: its own verdict is not used
+                rep4 = replay_inline(c, ex)
+                anchors['repeat_runs'] = anchors.get('repeat_runs', 0) + 1
+                if rep4['ok'] is False:
+                    rep = rep4
+                    rep['info']['sig'] = 'after-same-scenario-on-other-objects:' + str(rep['info'].get('sig', 'unclassified'))
+        if rep['ok']:
             anchors['passed'] += 1
         else:
             anchors['failed'].append({'cell': c.cid, 'args': ex, 'error': rep['error'],
@@ -450,6 +471,9 @@ def run_property(pid, tier='quick', seed=0, jobs=None, only=None, verbose=False,
             'functions_encoded': sorted(functions),
             'stubs': sorted({s for c in cells for s in c.stubs} | {'logging-disabled'}),
             'anchors': {'run': anchors['run'], 'passed': anchors['passed'],
+                        'lexical_variants': anchors.get('lexical_variants', 0),
+                        'repeat_runs': anchors.get('repeat_runs', 0),
+                        'lexical_variant_errors': anchors.get('lexical_skipped', [])[:20],
                         'failed': anchors['failed'][:20]},
             'known_findings': knowns,
             'violations': viols[:50],
